@@ -684,7 +684,9 @@ theorem step_refines_fail (ps : List Param) (hl : ListOK ps) (w : World) (A : Na
                 | mk h2 t =>
                   rw [ht] at hthrow
                   cases t with
-                  | none => simp only; exact (h.set d _ (.live []) (hsp p1)).of_vecs rfl
+                  | none =>
+                    simp only
+                    exact (h.set d { (vd.clear.setPtr p1) with cap := 0 } (.live []) ⟨hclr.1, hclr.2.congr rfl rfl rfl rfl⟩).of_vecs rfl
                   | some t => simp at hthrow
   | moveAssign s d =>
     simp only [WOp.apply, WOp.aspecFail] at hthrow ⊢
